@@ -10,6 +10,8 @@ use crate::sys::*;
 use crate::world::*;
 use axelar_soroban_std::interfaces::UpgradableClient;
 use proptest::prelude::*;
+#[allow(unused_imports)]
+use crate::prop_oneof;
 use serde::{Deserialize, Serialize};
 use soroban_sdk::testutils::Address as _;
 use soroban_sdk::xdr::{InvokeContractArgs, ScAddress, ScVal, SorobanAuthorizedFunction, SorobanAuthorizedInvocation};
